@@ -275,9 +275,31 @@ func (fv *FuncVC) rpo() []*ssa.BasicBlock {
 
 // bindLocals: `local alias = srcvar` — the SSA value(s) go/ssa's debug info ties to
 // the source variable; usable where exactly one of them dominates the program point.
-func (fv *FuncVC) bindLocals(env *Env, at *ssa.BasicBlock, st *State) {
+func (fv *FuncVC) bindLocals(env *Env, at *ssa.BasicBlock, st *State) { fv.bindLocalsAt(env, at, st, nil) }
+
+// bindLocalsAt: as bindLocals, for the program point just before instruction atIns of block at (definitions later in
+// the block are not in scope yet)
+func (fv *FuncVC) bindLocalsAt(env *Env, at *ssa.BasicBlock, st *State, atIns ssa.Instruction) {
 	if fv.c == nil {
 		return
+	}
+	before := func(v ssa.Value) bool {
+		if atIns == nil {
+			return true
+		}
+		vi, ok := v.(ssa.Instruction)
+		if !ok || vi.Block() != at {
+			return true
+		}
+		for _, ins := range at.Instrs {
+			if ins == vi {
+				return true
+			}
+			if ins == atIns {
+				return false
+			}
+		}
+		return true
 	}
 	for alias, src := range fv.c.Locals {
 		var cands []ssa.Value
@@ -297,12 +319,37 @@ func (fv *FuncVC) bindLocals(env *Env, at *ssa.BasicBlock, st *State) {
 					continue // a field selector c.data, not the local variable
 				}
 				if d.IsAddr {
+					// several variables may share a name (one per scope): the cell whose allocation dominates the
+					// program point and is closest to it is the one in scope
+					if ai, isIns := d.X.(ssa.Instruction); isIns && ai.Block() != nil {
+						if !(ai.Block() == at || ai.Block().Dominates(at)) {
+							continue
+						}
+						if cell != nil {
+							if ci, ok := cell.(ssa.Instruction); ok && ci.Block() != nil && ci.Block() != ai.Block() && ai.Block().Dominates(ci.Block()) {
+								continue // the one found earlier is closer
+							}
+						}
+					}
 					cell = d.X
 					continue
 				}
 				if !seen[d.X] {
 					seen[d.X] = true
 					cands = append(cands, d.X)
+				}
+			}
+		}
+		// join points: a phi that go/ssa labels with the variable's name is a definition of it too
+		for _, b := range fv.fn.Blocks {
+			for _, ins := range b.Instrs {
+				phi, ok := ins.(*ssa.Phi)
+				if !ok {
+					break
+				}
+				if phi.Comment == src && !seen[phi] {
+					seen[phi] = true
+					cands = append(cands, phi)
 				}
 			}
 		}
@@ -316,6 +363,9 @@ func (fv *FuncVC) bindLocals(env *Env, at *ssa.BasicBlock, st *State) {
 		}
 		var ok []ssa.Value
 		for _, v := range cands {
+			if !before(v) {
+				continue
+			}
 			ins, isIns := v.(ssa.Instruction)
 			if !isIns {
 				ok = append(ok, v) // parameter or constant
@@ -732,6 +782,12 @@ func (fv *FuncVC) instr(ins ssa.Instruction) {
 		}
 		fv.oblige("frame", "frame:store", frameProps, fv.writable(a.heap, a.id), x.Pos(), fmt.Sprintf("store %s targets memory allocated by this call or listed in modifies", x.String()))
 		fv.writeAddr(a, fv.val(x.Val))
+		if sv := fv.immutableCellValue(x.Addr); sv != nil && len(a.path) == 0 {
+			if fv.immTerm == nil {
+				fv.immTerm = map[Term]Term{}
+			}
+			fv.immTerm[a.id] = fv.val(sv)
+		}
 	case *ssa.BinOp:
 		fv.defReg(x, fv.binop(x.Op, x.X, x.Y, x.Type(), x.Pos()))
 	case *ssa.Phi:
@@ -833,6 +889,74 @@ func (fv *FuncVC) nilCheck(p Term, pos token.Pos, what string) {
 	fv.oblige("nil", "nil", panicProps, not(eq(p, "0")), pos, what+" is not nil")
 }
 
+// immutableCellValue: for an Alloc that is stored to exactly once, in a block that dominates every other use, and
+// whose address otherwise only feeds loads and calls of callees whose contracts modify nothing, the value stored.
+func (fv *FuncVC) immutableCellValue(v ssa.Value) ssa.Value {
+	al, ok := v.(*ssa.Alloc)
+	if !ok {
+		return nil
+	}
+	if fv.immCells == nil {
+		fv.immCells = map[*ssa.Alloc]ssa.Value{}
+	}
+	if sv, done := fv.immCells[al]; done {
+		return sv
+	}
+	fv.immCells[al] = nil
+	refs := al.Referrers()
+	if refs == nil {
+		return nil
+	}
+	var store *ssa.Store
+	for _, r := range *refs {
+		switch u := r.(type) {
+		case *ssa.Store:
+			if u.Addr != al || store != nil {
+				return nil
+			}
+			store = u
+		case *ssa.UnOp, *ssa.DebugRef:
+		case *ssa.Call:
+			cc := fv.calleeContract(&u.Call)
+			if cc == nil || len(cc.Modifies) != 0 {
+				return nil
+			}
+		default:
+			return nil
+		}
+	}
+	if store == nil {
+		return nil
+	}
+	for _, r := range *refs {
+		if r == ssa.Instruction(store) {
+			continue
+		}
+		if r.Block() == store.Block() {
+			// same block: the store must come first
+			first := false
+			for _, ins := range r.Block().Instrs {
+				if ins == ssa.Instruction(store) {
+					first = true
+					break
+				}
+				if ins == r {
+					break
+				}
+			}
+			if !first {
+				return nil
+			}
+		} else if !store.Block().Dominates(r.Block()) {
+			return nil
+		}
+	}
+	// not inside a loop that could re-execute the allocation with another value: the stored value must itself be
+	// defined in a block that dominates the store (always true in SSA) and the cell is per-iteration fresh anyway
+	fv.immCells[al] = store.Val
+	return store.Val
+}
+
 func (fv *FuncVC) unop(x *ssa.UnOp) {
 	e := fv.e
 	switch x.Op {
@@ -848,7 +972,13 @@ func (fv *FuncVC) unop(x *ssa.UnOp) {
 				fv.nilCheck(a.id, x.Pos(), x.X.Name())
 			}
 		}
-		fv.defReg(x, fv.readAddr(a, fv.st))
+		if sv := fv.immutableCellValue(x.X); sv != nil {
+			// a cell written once (a parameter or local whose address is only handed to callees that modify
+			// nothing): every load yields the stored value
+			fv.defReg(x, fv.val(sv))
+		} else {
+			fv.defReg(x, fv.readAddr(a, fv.st))
+		}
 		fv.assume(fv.wfVal(fv.val(x), x.Type(), fv.curAlloc(), 0))
 		// the heap at entry is closed: what is stored in memory allocated before the call refers only to memory
 		// allocated before the call (reads from a heap that still is the entry version)
